@@ -98,4 +98,10 @@ else:
         subprocess.run(["git", "-C", "/repo", "worktree", "prune"])
 os.makedirs("/verif/out", exist_ok=True)
 json.dump(rows, open("/verif/out/seed_matrix.json", "w"), indent=1)
+if not want:
+    # the full matrix is kept under version control next to the seeds
+    head = subprocess.run(["git", "-C", "/repo", "log", "--format=%h", "-1"], capture_output=True, text=True).stdout.strip()
+    json.dump({"repo_head": head, "detected": sum(1 for r in rows if r[2] == "detected"), "total": len(rows),
+               "rows": [{"seed": r[0], "property": r[1], "result": r[2], "first_signature": r[3]} for r in rows]},
+              open("/verif/seeded/MATRIX.json", "w"), indent=1)
 print(f"{sum(1 for r in rows if r[2]=='detected')}/{len(rows)} detected")
